@@ -76,8 +76,11 @@ def liesel_case(col, auto_update, rng):
     else:
         out = iface.update_state(p, s)
         got = iface.extract_position(list(p), out)
+        got_it = iface.extract_position((k for k in p), out)  # the keys as a one-shot iterable
         if not all(np.allclose(np.asarray(got[k]), np.asarray(p[k])) for k in p):
             bad = "extract_position does not give the position back"
+        elif sorted(got_it) != sorted(p) or not all(np.allclose(np.asarray(got_it[k]), np.asarray(p[k])) for k in p):
+            bad = f"extract_position with the keys given as a generator returns {dict(got_it)}, the position is {p}"
         elif not np.isclose(float(iface.log_prob(out)), float(ref.log_prob), rtol=1e-5):
             bad = "interface log_prob differs from the model's"
         elif any(bool(v.outdated) for v in out.values()):
@@ -178,7 +181,8 @@ def simple_cases(col):
                                 ("namedtuple", gs.NamedTupleInterface(lambda s: s.a * 2), NT(1.0, 2.0), getattr)):
         before = copy.deepcopy(st)
         new = iface.update_state({"b": 5.0}, st)
-        ok = rd(new, "b") == 5.0 and rd(new, "a") == 1.0 and st == before and iface.extract_position(["b"], new)["b"] == 5.0 and iface.log_prob(new) == 2.0
+        ok = (rd(new, "b") == 5.0 and rd(new, "a") == 1.0 and st == before and iface.extract_position(["b"], new)["b"] == 5.0 and iface.log_prob(new) == 2.0
+              and dict(iface.extract_position(iter(["b", "a"]), new)) == {"b": 5.0, "a": 1.0})
         col.add(None if ok else {"sig": f"native::interface::{name}", "what": "put/get / non-mutation / log_prob law fails", "input": {"interface": name}})
 
 
@@ -263,6 +267,31 @@ def same_state_object_case(col):
     ok = got[0] == 30.0 and got[1] == 20.0 and np.isclose(got[2], want_lp, rtol=1e-5) and float(s1["a_value"].value) == 0.0
     col.add(None if ok else {"sig": "native::interface::leftover_of_earlier_call", "what": f"update_state({{'b': 20}}, S) after update_state({{'a': 0}}, S) gives (a, b, log_prob) = {got}, "
                              f"expected (30.0, 20.0, {want_lp})", "input": {"same_state_object": True, "key_sets": [["a"], ["b"]]}})
+
+
+def non_finite_log_prob_case(col):
+    """positions whose log-probability is not finite (a value outside a Uniform prior's support: -inf; a negative Normal scale: NaN): the interface reports exactly
+    what the model itself reports after direct assignment and update - eagerly and under jit"""
+    def build():
+        mu = lsl.param(np.float32(0.0), lsl.Dist(tfd.Uniform, low=-5.0, high=5.0), name="mu")
+        sigma = lsl.param(np.float32(1.0), lsl.Dist(tfd.Normal, loc=0.0, scale=10.0), name="sigma")
+        y = lsl.obs(np.array([0.1, -0.3], np.float32), lsl.Dist(tfd.Normal, loc=mu, scale=sigma), name="y")
+        return lsl.GraphBuilder().add(y).build_model()
+    model = build()
+    iface = gs.LieselInterface(model)
+    bad = []
+    for nm, pos in (("mu outside the support of its Uniform(-5, 5) prior", {"mu": jnp.float32(7.0)}), ("negative scale of the response distribution", {"sigma": jnp.float32(-1.0)}),
+                    ("finite", {"mu": jnp.float32(1.0)})):
+        ref = build()
+        for k, v in pos.items():
+            ref.vars[k].value = v
+        ref.update()
+        want = np.float32(ref.log_prob)
+        for how, f in (("eager", iface.log_prob), ("jit", jax.jit(iface.log_prob))):
+            got = np.float32(f(iface.update_state(pos, model.state)))
+            if not (np.array_equal(got, want, equal_nan=True)):
+                bad.append(f"{nm} ({how}): the interface reports {got}, the model itself reports {want}")
+    col.add(None if not bad else {"sig": "native::interface::non_finite_log_prob", "what": "; ".join(bad[:3]), "input": {"positions": ["mu = 7 under Uniform(-5, 5)", "sigma = -1", "mu = 1"]}})
 
 
 def two_models_case(col):
@@ -350,6 +379,10 @@ def bounded(tier, seed):
     except Exception as e:
         col.add({"sig": f"native::interface::exception::{type(e).__name__}", "what": str(e)[:200], "input": {"scenario": "same state object, different key sets"}})
     try:
+        non_finite_log_prob_case(col)
+    except Exception as e:
+        col.add({"sig": f"native::interface::exception::{type(e).__name__}", "what": str(e)[:200], "input": {"scenario": "non-finite log-probability"}})
+    try:
         two_models_case(col)
     except Exception as e:
         col.add({"sig": f"native::interface::exception::{type(e).__name__}", "what": str(e)[:200], "input": {"scenario": "two models in one process"}})
@@ -386,7 +419,7 @@ def bounded(tier, seed):
     except Exception as e:
         col.add({"sig": f"native::interface::exception::{type(e).__name__}", "what": str(e)[:200], "input": {"scenario": "ambiguous key"}})
     return {"evaluations": col.evals, "distinct_nontrivial": col.evals,
-            "rule": (CORE_RULE + "; " + "BOUNDED: interfaces of two models in one process that resolve the same key to different nodes (both orders of first use); Liesel model with two parameters, a derived sigma and a LEAF derived node pred (feeds no distribution), user model with auto_update on and off: "
+            "rule": (CORE_RULE + "; " + "BOUNDED: positions with a non-finite log-probability (-inf outside a support, NaN for an invalid parameter) against the model's own report, eager and jit; interfaces of two models in one process that resolve the same key to different nodes (both orders of first use); Liesel model with two parameters, a derived sigma and a LEAF derived node pred (feeds no distribution), user model with auto_update on and off: "
                      "update_state eager vs a fresh interface (history independence) vs jax.jit vs jax.vmap vs direct assignment + full update on a new model, non-mutation of the input "
                      f"state and of the user's model, put/get, log_prob; a model built with the deprecated GraphBuilder.transform (calculation directly on a value node) updated through variable-name keys; put/get/non-mutation/log_prob for the dict, dataclass (also with field(init=False) fields holding non-default values) and named-tuple interfaces. seed={seed}"),
             "samples": [{"auto_update_of_user_model": False}], "exhaustive": False, "violations": col.violations}
